@@ -95,7 +95,16 @@ pub fn replay(a: &Args) {
     let mut renders = a.get("render-trace").map(|p| Out::create(&p));
     let repeat = a.num("repeat", 0) as usize;
     let mut repeated = 0usize;
-    for c in &cases {
+    // with --reverse the cases are processed in the opposite order; --digests writes one digest per case in input order,
+    // so that two processes that saw the cases in different orders can be compared (state leaking between renderings)
+    let reverse = a.num("reverse", 0) == 1;
+    let mut digest_at: Vec<(usize, String)> = Vec::new();
+    let mut order: Vec<usize> = if reverse { (0..cases.len()).rev().collect() } else { (0..cases.len()).collect() };
+    if a.num("shuffle", 0) > 0 {
+        Rng::new(a.num("shuffle", 0)).shuffle(&mut order);
+    }
+    for ci in order {
+        let c = &cases[ci];
         let ops = c["ops"].as_array().expect("ops");
         let mut root: Option<Element<String>> = None;
         let mut bad = false;
@@ -151,6 +160,7 @@ pub fn replay(a: &Args) {
         // C05 on hand-built trees: every rendering builds fresh HashMaps, so repetitions range over iteration orders
         if let (true, Some(e)) = (repeat > 0, root.as_ref()) {
             let all = crate::rewrite::render_all(e);
+            digest_at.push((ci, format!("{:016x}", crate::rewrite::fnv(&all))));
             for _ in 0..repeat {
                 repeated += 1;
                 let again = crate::rewrite::render_all(e);
@@ -163,6 +173,10 @@ pub fn replay(a: &Args) {
     }
     let lines = trace.map(|t| t.finish()).unwrap_or(0);
     let rlines = renders.map(|t| t.finish()).unwrap_or(0);
+    if let Some(p) = a.get("digests") {
+        digest_at.sort();
+        std::fs::write(p, digest_at.into_iter().map(|x| x.1).collect::<Vec<_>>().join("\n")).expect("write digests");
+    }
     if repeat > 0 {
         println!("{}", json!({"repeated": repeated}));
     }
